@@ -16,6 +16,12 @@ type verifCellSpec struct {
 
 var verifC12Alphabet = []verifCellSpec{{"", 0}, {"a", 1}, {"b", 0}, {"世", 2}, {"é", 0}}
 
+// the free style of the boundary variant (mode 5), fixed for the whole path
+var (
+	verifC12Attr uint8
+	verifC12Ul   int
+)
+
 func verifFeedBytes(vt *Model, b []byte) {
 	vt.parser = ansi.NewParser(strings.NewReader(string(b)))
 	for seq := range vt.parser.Next() {
@@ -83,13 +89,23 @@ func VerifC12Frames() {
 	vaxis.VerifSetSixelCap(vx)
 	vt := verifModel(cols, rows)
 	vt.mode.dectcem = false // start-up hides the cursor (C04)
+	if mode == 5 {
+		verifC12Attr, verifC12Ul = zzverif.Uint8("attr"), zzverif.Choose("ul", 3)
+	}
 	for f := 0; f < 2; f++ {
 		win := vx.Window()
 		win.Clear()
 		for r := 0; r < rows; r++ {
 			for c := 0; c < cols; c++ {
 				sel := 1
-				if mode == 4 {
+				if mode == 5 {
+					// pen carried across the frame boundary: frame 1 ends with a styled cell,
+					// frame 2 starts with a plain changed cell (cell 1 unchanged or plain too)
+					sel = 1 + f
+					if f == 1 && c == 1 && zzverif.Bool("keepLast") {
+						sel = 1
+					}
+				} else if mode == 4 {
 					sel = zzverif.Choose("cell", 2)
 				} else if mode != 3 {
 					sel = zzverif.Choose("cell", len(verifC12Alphabet))
@@ -97,7 +113,10 @@ func VerifC12Frames() {
 				sp := verifC12Alphabet[sel]
 				zzverif.Assume(!(sp.g == "世" && c == cols-1))
 				var st vaxis.Style
-				if sel != 0 && mode == 1 {
+				if mode == 5 && (f == 0 && c == cols-1 || f == 1 && c == cols-1 && sel == 1) {
+					st.Attribute = vaxis.AttributeMask(verifC12Attr) & 0xFE
+					st.UnderlineStyle = vaxis.UnderlineStyle(verifC12Ul)
+				} else if sel != 0 && mode == 1 {
 					st.Attribute = vaxis.AttributeMask(zzverif.Uint8("attr")) & 0xFE
 					st.UnderlineStyle = vaxis.UnderlineStyle(zzverif.Choose("ul", 3))
 				} else if sel != 0 && mode == 2 {
@@ -131,7 +150,7 @@ func VerifC12Frames() {
 		} else {
 			vx.HideCursor()
 		}
-		if f == 0 || mode != 3 && zzverif.Bool("refresh") {
+		if f == 0 || mode != 3 && mode != 5 && zzverif.Bool("refresh") {
 			vx.Refresh()
 		} else {
 			vx.Render()
